@@ -572,6 +572,10 @@ SELFTEST = {
          "new": "                if key in [\"file_meta\", \"antennas\"]:\n                    continue", "rule": "R12d"},
     ],
     "benign": [
+        {"name": "length of the open file remembered AND dropped when the next file is opened (a complete cache: the stale-value rule must stay silent)", "silent": ["R12t"],
+         "edits": [{"file": "pyrex/generation.py", "old": "        if stop>len(self._file):\n            stop = len(self._file)",
+                    "new": "        if getattr(self, '_n_in_file', None) is None:\n            self._n_in_file = len(self._file)\n        if stop>self._n_in_file:\n            stop = self._n_in_file"},
+                   {"file": "pyrex/generation.py", "old": "        self._file.open()\n\n    def create_event(self):", "new": "        self._file.open()\n        self._n_in_file = None\n\n    def create_event(self):"}]},
         {"name": "per-event start via zip of the two columns", "file": "pyrex/io.py",
          "old": "                for start, length in tmp_indices:\n                    start = start - tmp_start\n",
          "new": "                for begin, length in zip(tmp_indices[:, 0], tmp_indices[:, 1]):\n                    start = begin - tmp_start\n"},
